@@ -252,6 +252,9 @@ def stepPodControl (cas obs : String) : String :=
       let model := " ".intercalate (PC.showSteps c.base 1 steps)
       let obs' := match obs.splitOn " site=" with | o :: _ => o | [] => obs
       let implSteps := PC.obsSteps obs' 1 c.steps
-      s!"{model}\t{verdict (Spec.clauses c.base c.rs c.ord implSteps)}\t{PC.tagOf c steps}"
+      -- a panic anywhere in the pod control / pod construction (the harness recovers it and says so)
+      -- (a set without a selector panics in the model too: the CRD requires the selector, such a set is not admitted)
+      let crashed := (obs'.startsWith "harness-panic" || (obs'.splitOn "out=panic").length > 1) && (model.splitOn "out=panic").length ≤ 1
+      s!"{model}\t{verdict ((Spec.clauses c.base c.rs c.ord implSteps) ++ [("C15.nopanic", !crashed)])}\t{PC.tagOf c steps}"
 
 end Asts.Driver
